@@ -308,6 +308,9 @@ def run(tier, seed):
     tasks = [(task, (p, cse, tier, seed)) for p in ps for cse in (True, False)] + [(task_cse_pair, (p, tier, seed)) for p in ps] + [(task_regimes, (p, True, tier, seed)) for p in ps]
     from .common import pmap_staged
 
+    from .common import with_extra_validation
+
+    tasks += [(with_extra_validation, (task, CP.P3(), True, tier, seed)), (with_extra_validation, (task, CP.P1(), False, tier, seed))]
     first = [t for t in tasks if t[0] is task_regimes]
     for d in pmap_staged(_dispatch, first, [t for t in tasks if t[0] is not task_regimes]):
         rep.merge(d)
